@@ -345,6 +345,10 @@ func checkInjection(run *core.Run, d *gen.Doc, inj *injection, l *gen.Layout) {
 // injectionVerdict is the monitor proper (also used by replay): the text must be rejected by both DSL entry
 // points with a nil model; when a position is recorded, some error must sit exactly there.
 func injectionVerdict(run *core.Run, c *core.Case) {
+	run.Guard(c, func() { injectionVerdict1(run, c) })
+}
+
+func injectionVerdict1(run *core.Run, c *core.Case) {
 	txt := c.DSL
 	m1, err1 := transformer.TransformDSLToProto(txt)
 	m2, ext, err2 := transformer.TransformModularDSLToProto(txt)
@@ -418,6 +422,9 @@ func injectionLayout(r *rand.Rand, inj *injection) *gen.Layout {
 		wild = false
 	}
 	l := &gen.Layout{R: r, Wild: wild, CRLF: wild && r.Intn(4) == 0, Comments: r.Intn(2) == 0}
+	if wild && r.Intn(5) == 0 {
+		l.Mixed, l.Comments = true, true // LF and CRLF line ends mixed in one file
+	}
 	if inj.name != "both-headers" && inj.name != "no-header" && r.Intn(48) == 0 {
 		l.Long = 66000 + r.Intn(5000) // the defect sits behind a line longer than 64 KiB
 	}
@@ -562,6 +569,10 @@ func countDecls(txt string) (int, int, int) {
 }
 
 func converseCheck(run *core.Run, s string) {
+	run.Guard(&core.Case{Kind: "converse", DSL: s}, func() { converseCheck1(run, s) })
+}
+
+func converseCheck1(run *core.Run, s string) {
 	m, err := transformer.TransformDSLToProto(s)
 	run.Eval(1)
 	if err != nil {
